@@ -17,6 +17,8 @@ func TestMain(m *testing.M) {
 	if gen.AsyncFailed() && code == 0 {
 		code = 1
 	}
-	gen.WriteParts()
+	if os.Getenv("VERIF_FUZZ") == "" {
+		gen.WriteParts()
+	}
 	os.Exit(code)
 }
